@@ -395,8 +395,16 @@ def m5_verify_before_serve(run):
                     isinstance(c.func, ast.Attribute)):
                 continue
             recv = unparse(c.func.value)
-            if call_name(c) == "load" and recv != "_md":
-                continue
+            if call_name(c) == "load":
+                # a metadata source: a plain local name or an entry of
+                # self.metadata (not json.load / pickle.load / self.load)
+                r0 = c.func.value
+                src = (isinstance(r0, ast.Name) and r0.id not in mi.imports
+                       and r0.id not in ("self", "cls")) or (
+                    isinstance(r0, ast.Subscript) and
+                    unparse(r0.value) == "self.metadata")
+                if not src:
+                    continue
             f = m.enclosing_function(mi, c)
             if f is None or not f.module.endswith("mdstore"):
                 continue
